@@ -4,7 +4,7 @@ import Rivaas.Model.RealIPText
 import Rivaas.Model.RemoteAddr
 /-
 Driver for C18. Case line (raw header text + the `net` table for every candidate item):
-  <id> <maxHops as configured> <RemoteAddr> <nh> { X <value> | S <value> }*
+  <id> <maxHops as configured> <RemoteAddr> <nh> { X <value> | S <value> }* (as configured)  2 { X <value> | S <value> } (the defaults)
        <ntbl> { <item> 0 | <item> 1 <canonical> <trusted> }*  =>  R <result> | P
 The model derives the peer from RemoteAddr itself (`net.SplitHostPort` is modelled), splits and trims the header text itself (`splitAndTrim`, `parseOneIP`), classifies every
 item through the table and runs the walk; the oracle `specOK` is evaluated on what the
@@ -28,7 +28,9 @@ def pReq : P WireReq := do
   let mhConfigured ← int   -- as configured; the model applies compileProxies' normalisation itself
   let mh := compileMaxHops mhConfigured
   let ra ← str
-  let hs ← list pRawHdr
+  let configured ← list pRawHdr   -- the headers as configured (possibly none) …
+  let defaults ← list pRawHdr     -- … and the default pair: the model chooses (compileProxies)
+  let hs := compileHeaders configured defaults
   let tbl ← list pEntry
   pure { maxHops := mh, remoteAddr := ra, hdrs := hs, tbl := tbl }
 
